@@ -254,7 +254,7 @@ PROPS["C07"] = {
 PROPS["C17"] = {
     "level": "exploration",
     "quick_runs": 500, "quick_budget_s": 150, "thorough_budget_s": 600,
-    "rule": "one run = one world (1-10 upstream rules from: catch-all, nested prefixes /api/ and /api/v2/, sibling /apix/, exact path, an exact path below a prefix upstream (requests with and without trailing slash), base path, four rewrite rules with capture "
+    "rule": "(a tenth of the runs: FRONT scenario - the product's own server object from pkg/http listens on the simulated network through the guarded listener seam; a raw HTTP/1.1 client sends 3-6 authenticated / anonymous POSTs whose head arrives at once or in two halves 2 s - 70 s apart and whose body of 0 - 200 kB arrives in 1-6 pieces over 0 s - 10 min of simulated time; oracle: the upstream receives the client's body complete and unchanged however long the upload takes, the client receives the upstream's answer, anonymous requests never reach the upstream.) one run = one world (1-10 upstream rules from: catch-all, nested prefixes /api/ and /api/v2/, sibling /apix/, exact path, an exact path below a prefix upstream (requests with and without trailing slash), base path, four rewrite rules with capture "
             "groups incl. a longer overlapping pattern, a group swap and a target with a query of its own, a static upstream, two file:// upstreams (prefix and rewrite) over a small directory tree with a marker file outside it; pass-host-header per rule; raw-path proxying on/off; four FakeUpstream hosts) + a real login "
             "+ 40-79 authenticated requests: 24 prefixes (10 of them with an encoded slash or letter right at a prefix boundary) x 0-3 segments from an alphabet with %2F, %2e, %20, +, ;, %-encoded and raw UTF-8, %3F, %25 x 14 queries (two re-using the rule's parameter names) x 9 methods x 0-5 "
             "headers (repeated, lower-case, unusual names, empty values, hop-by-hop) x bodies 0 B - 1 MiB fixed or chunked with seeded chunk sizes; the upstream answers with a seeded "
